@@ -31,11 +31,14 @@ INVS = ("TypeOK, MutualExclusion, Linearizable, LinearizableStep, WritesOnlyUnde
         "FailureLeavesContent, QuiescentAtEnd, deadlock check")
 
 
+TAG = {"tier": "quick"}   # work directories and TLC run names are per tier (tiers may run side by side)
+
+
 def tlc(chk, cfg, out, workers, note, timeout=1500, expect=None):
     """expect: None = must hold; 'deadlock' / 'invariant' = the run must FAIL that way
     (the forbidden alternative really breaks the property, so the property is not vacuous)."""
     res = C.run_tlc("MC_Conc", "MC_Conc_%s.cfg" % cfg, workers=workers, timeout=timeout,
-                    env_extra={"VERIF_OUT": out}, deadlock=True, name="conc_" + cfg)
+                    env_extra={"VERIF_OUT": out}, deadlock=True, name="conc_%s_%s" % (TAG["tier"], cfg))
     chk.add_tlc("MC_Conc_" + cfg, res, note)
     if expect is None:
         C.require_tlc_ok(res, "MC_Conc_%s (%s)" % (cfg, note))
@@ -43,7 +46,7 @@ def tlc(chk, cfg, out, workers, note, timeout=1500, expect=None):
         if "Deadlock reached" not in res.out:
             raise C.ToolError("MC_Conc_%s: the nested-read alternative no longer deadlocks in the model" % cfg)
     elif expect == "invariant":
-        if not re.search(r"Invariant (Linearizable|NoLostUpdate|IncrementsPermutation|OutcomeIsSerial) is violated", res.out):
+        if not re.search(r"Invariant (Linearizable|NoLostUpdate|IncrementsPermutation|OutcomeIsSerial|OutcomeInSerialSet) is violated", res.out):
             raise C.ToolError("MC_Conc_%s: the split-guards alternative no longer loses updates in the model" % cfg)
     return res
 
@@ -59,7 +62,7 @@ def vacuity(chk, out):
     dead_in_spec = set()
     for cfg in ("cells", "render", "f17_nested_nopref", "split"):
         res = C.run_tlc("MC_Conc", "MC_Conc_%s.cfg" % cfg, workers=4, timeout=1500, env_extra={"VERIF_OUT": out},
-                        deadlock=True, coverage=True, name="conc_cov_" + cfg)
+                        deadlock=True, coverage=True, name="conc_%s_cov_%s" % (TAG["tier"], cfg))
         chk.add_tlc("MC_Conc_%s (coverage)" % cfg, res, "vacuity: which actions are taken")
         seen = {}
         for m in re.finditer(r"^<(\w+) line \d+[^>]*>: (\d+):(\d+)$", res.out, re.M):
@@ -158,15 +161,15 @@ def diagnose(module, cfg, path, h):
     """Re-run TLC on one rejected history with deadlock checking: the stuck state is where the
     specification stopped accepting the recorded events."""
     res = C.run_tlc(module, cfg.replace(".cfg", "_diag.cfg"), workers=1, timeout=600, dfs=True, deadlock=True,
-                    env_extra={"VERIF_IN": path, "VERIF_ONLY": str(h)}, name="conc_diag")
+                    env_extra={"VERIF_IN": path, "VERIF_ONLY": str(h)}, name="conc_%s_diag" % TAG["tier"])
     m = re.findall(r"^/\\ l = (\d+)$", res.out, re.M)
     state = res.out[res.out.rfind("State "):][:3000] if "State " in res.out else res.out[-2000:]
     return (int(m[-1]) if m else None), state
 
 
-def validate_trace(chk, path, stats, name="conc_trace"):
+def validate_trace(chk, path, stats):
     res = C.run_tlc("Trace_Conc", "Trace_Conc.cfg", workers=1, timeout=1500, dfs=True,
-                    env_extra={"VERIF_IN": path}, name=name)
+                    env_extra={"VERIF_IN": path}, name="conc_%s_trace" % TAG["tier"])
     chk.add_tlc("Trace_Conc", res, "recorded calls + under-lock Write events, one state per event")
     ok = {int(x) for x in re.findall(r'^<<"HIST_OK", (\d+)>>$', res.out, re.M)}
     m = re.search(r'^<<"TRACE", (\d+), (\d+), (\d+)>>$', res.out, re.M)
@@ -201,7 +204,7 @@ def report_trace_rejections(chk, path, rejected):
 
 def validate_lin(chk, path, stats):
     res = C.run_tlc("Trace_ConcLin", "Trace_ConcLin.cfg", workers=1, timeout=1500, dfs=True,
-                    env_extra={"VERIF_IN": path}, name="conc_lin")
+                    env_extra={"VERIF_IN": path}, name="conc_%s_lin" % TAG["tier"])
     chk.add_tlc("Trace_ConcLin", res, "hook-independent: linearization search + aggregate laws on the calls only")
     ok = {int(x) for x in re.findall(r'^<<"LIN_OK", (\d+)>>$', res.out, re.M)}
     m = re.search(r'^<<"LIN", (\d+), (\d+)>>$', res.out, re.M)
@@ -255,7 +258,7 @@ def corrupt_selftest(chk, path, out, stats, which):
         p = os.path.join(out, "corrupt_%s.ndjson" % kind)
         C.write_ndjson(p, mut)
         res = C.run_tlc("Trace_Conc", "Trace_Conc.cfg", workers=1, timeout=900, dfs=True,
-                        env_extra={"VERIF_IN": p}, name="conc_corrupt")
+                        env_extra={"VERIF_IN": p}, name="conc_%s_corrupt" % TAG["tier"])
         ok = {int(x) for x in re.findall(r'^<<"HIST_OK", (\d+)>>$', res.out, re.M)}
         if h_bad in ok:
             raise C.ToolError("self-test: Trace_Conc accepted a trace corrupted by '%s'" % kind)
@@ -265,7 +268,8 @@ def corrupt_selftest(chk, path, out, stats, which):
 def run(tier):
     chk = C.Check("C16", tier)
     thorough = tier == "thorough"
-    out = C.workdir("conc_out")
+    TAG["tier"] = tier
+    out = C.workdir("conc_out_" + tier)
     w = 6 if thorough else 4
     stats = {k: 0 for k in ("cases", "nontrivial_cases", "replay_runs", "forced_orders", "outcomes_observed",
                             "outcomes_allowed", "cases_with_several_outcomes", "panics", "trace_events",
@@ -302,14 +306,14 @@ def run(tier):
     # ---- 2. spec -> impl: every case of the program spaces on real threads, every serial order forced
     alive = True
     for name in emit:
-        if not replay_and_force(chk, out, name, 9 if thorough else 3, 1, stats):
+        if not replay_and_force(chk, out, name, 6 if thorough else 3, 1, stats):
             alive = False
             break
 
     # ---- 3. impl -> spec: recorded stress histories
     rec = None
     if alive:
-        rdir = C.workdir("conc_rec")
+        rdir = C.workdir("conc_rec_" + tier)
         if thorough:
             rec = vh_json(["record", rdir, 400, 6, 8, 60, 12, 150])
         else:
